@@ -3,6 +3,7 @@
 
 #include <string.h>
 #include <cmath>
+#include <cstdio>
 
 namespace photospline{
 	
@@ -437,14 +438,29 @@ void splinetable<Alloc>::write_fits(const std::string& filePath) const{
 	struct fits_cleanup{
 		fitsfile* fits;
 		fits_cleanup(fitsfile* f):fits(f){}
+		//Flush and close the file, reporting whether everything reached it
+		int close(){
+			int error=0;
+			if(fits){
+				fits_close_file(fits, &error);
+				fits=NULL;
+			}
+			return(error);
+		}
+		//If the file has not been closed, writing it was abandoned:
+		//do not leave a partial file behind
 		~fits_cleanup(){
 			int error=0;
-			fits_close_file(fits, &error);
-			fits_report_error(stderr, error);
+			if(fits)
+				fits_delete_file(fits, &error);
 		}
 	} cleanup(fits);
 	
 	write_fits_core(fits);
+	if(cleanup.close()!=0){
+		std::remove(filePath.c_str());
+		throw std::runtime_error("CFITSIO failed to finish writing "+filePath);
+	}
 }
 	
 template<typename Alloc>
